@@ -94,7 +94,13 @@ def run_case(case):
     serial = [0]
 
     def model_axes(stale):
-        for d, addr, hs in queued:
+        """-> True when the pass meets an accepted connection that was already reset (getpeername() fails): the service
+        call raises that OSError, the connections accepted before it are entered, the ones behind it stay pending"""
+        while queued:
+            d, addr, hs = queued.pop(0)
+            if d.peer is None:
+                info["faults"] = info.get("faults", 0) + 1
+                return True
             info["accepts"] += 1
             if tls:
                 if addr in pending:
@@ -109,7 +115,7 @@ def run_case(case):
                     info["repeat"] += 1
                     info["stale_ready"] += 1
                 ready[addr] = Entry(d)
-        del queued[:]
+        return False
 
     def model_cxes(stale):
         for addr in list(pending):
@@ -155,7 +161,16 @@ def run_case(case):
         stale = []
         expect_value_error = False
         try:
-            if kind == "accept":
+            expect_fault = False
+            if kind == "acceptreset":
+                # a connection that the far side has reset before it is serviced: accepted, but getpeername() raises ENOTCONN
+                addr = ADDRS[op[1]]
+                serial[0] += 1
+                d = D.FakeSocket(peer=addr, sock=server.eha, name="r%d" % serial[0])
+                listen.push(d, addr)
+                d.peer = None
+                queued.append((d, addr, 0))
+            elif kind == "accept":
                 addr = ADDRS[op[1]]
                 hs = op[2] if tls else 0
                 serial[0] += 1
@@ -168,21 +183,26 @@ def run_case(case):
                     kind = "connects"
                 if kind == "all" and any(e.closed for e in ready.values()):
                     kind = "connects"
-                if kind == "axes":
-                    model_axes(stale)
-                    server.serviceAxes()
-                elif kind == "cxes":
+                if kind == "cxes":
                     model_cxes(stale)
                     server.serviceCxes()
                 else:
-                    model_axes(stale)
-                    if tls:
-                        model_cxes(stale)
-                    if kind == "connects":
-                        server.serviceConnects()
-                    else:
-                        server.serviceAll()
-                if kind != "cxes" and (listen.pending or server.axes):
+                    expect_fault = model_axes(stale)
+                    meth = {"axes": server.serviceAxes, "connects": server.serviceConnects}.get(kind, server.serviceAll)
+                    raised = False
+                    try:
+                        meth()
+                    except OSError as ex:
+                        if not (expect_fault and ex.errno == errno.ENOTCONN):
+                            raise
+                        raised = True      # the pass ends at the dead connection; the ones behind it stay pending
+                    if not raised:
+                        # (a dead connection dropped without an error is fine too: then the whole pass has run)
+                        while expect_fault:
+                            expect_fault = model_axes(stale)
+                        if tls and kind != "axes":
+                            model_cxes(stale)
+                if kind != "cxes" and not queued and (listen.pending or server.axes):
                     fails.append(("accept-left:" + cname, "step %d %r: %d queued connections were not accepted into the table"
                                   % (step, op, len(listen.pending) + len(server.axes))))
                     break
@@ -281,6 +301,8 @@ def history_strategy(maxlen):
         st.builds(lambda x, sv: [["peerclose", x], sv], a, service),
         st.builds(lambda x, n: [["peerdata", x, n]], a, st.integers(1, 9)),
         st.builds(lambda x: [["peerreset", x]], a),
+        st.builds(lambda x, y, h, sv: [["accept", x, 0], ["acceptreset", y], ["accept", y, h], sv, sv], a, a, k, service),
+        st.builds(lambda y: [["acceptreset", y]], a),
         st.builds(lambda x, b: [["remove", x, int(b)]], a, st.booleans()),
         st.builds(lambda x: [["close", x]], a),
         st.builds(lambda x, h: [["shutdown", x, h]], a, st.integers(0, 2)),
@@ -300,6 +322,8 @@ def classes_of(tls, info, nops):
         cls.append("stale-ready-replaced")
     if info.get("reset"):
         cls.append("peer-reset-shutdown-fails")
+    if info.get("faults"):
+        cls.append("accepted-connection-already-reset")
     if info["unknown"]:
         cls.append("unknown-address-op")
     if info["promotions"]:
